@@ -22,6 +22,8 @@ RULE = ("cases: (a) ENUMERATED public-key strings: every prefix byte 0..255 x ev
         "(c) ENUMERATED 64-byte compact strings over 24x24 boundary pairs, plain and with each recovery id; "
         "(d) Hypothesis: valid encodings of all formats under byte / bit / length / field mutations; (e) Hypothesis: valid signatures constructed with a chosen small s (or small r) and "
         "their non-canonical re-encodings (s+n, r+n compact and DER, negative DER, 2^256-extended DER, failed parses over a buffer that held the valid signature) which must never verify. "
+        "The int64 (10x26 field / 8x32 scalar) and int128-struct builds run the complete boundary-coordinate grids (every x / y in {p-1, p, p+1, p+2^26-1, p+2^26, 2^256-1, tiny x + p, tiny y + p, "
+        "limb patterns of p} under every key format), an eighth of the prefix x length grid and of the DER grid, the compact grid (incl. scalars sharing limbs with n), and shares of (d), (e) and of the fuzz target. "
         "Oracle: pyref strict parsers (ec.parse_pubkey / parse_xonly, der.parse, range check), serialize(parse(b)) == canonical(b), parse(serialize(o)) == o, DER size negotiation with exact-size heap buffers. "
         "non-trivial = the string is not a plain valid encoding in its default format (any rejected string, hybrid keys, out-of-range DER integers, too-small buffers)")
 ASSUMPTIONS = ["pyref.ec parsers and pyref.der are correct readings of SEC1 / BIP-340 / X.690 and of the header documentation (validated in pyref.selftest against published encodings)",
@@ -1009,18 +1011,21 @@ ALL4 = {"quick": ["prod", "vsan", "int64", "struct"], "thorough": ["prod", "vsan
 # the int128 emulation) run the COMPLETE boundary-coordinate grids (every boundary x / y under every key format: must_cover) and an eighth of the prefix x length grid and of the DER grid.
 TESTS = [
     Test("pub_grid", pub_enum, run_pub_enum, kind="enum", cfgs=PROD, max_workers=4, must_cover=_PUB_COVER + _BOUND_COVER),
-    Test("pub_grid_san", _san_pub_enum, run_pub_enum, kind="enum", cfgs=SAN, max_workers=4, must_cover=_PUB_COVER),
+    Test("pub_grid_san", _san_pub_enum, run_pub_enum, kind="enum", cfgs=SAN, max_workers=1, must_cover=_PUB_COVER),
     Test("pub_grid_cfg", _cfg_pub_enum, run_pub_enum, kind="enum", cfgs=OTHER, max_workers=2, must_cover=_PUB_COVER + _BOUND_COVER),
     Test("der_grid", der_enum, run_der_enum, kind="enum", cfgs=PROD, max_workers=8, must_cover=_DER_COVER),
-    Test("der_grid_san", _san_der_enum, run_der_enum, kind="enum", cfgs=SAN, max_workers=8, must_cover=_DER_COVER),
+    Test("der_grid_san", _san_der_enum, run_der_enum, kind="enum", cfgs=SAN, max_workers=3, must_cover=_DER_COVER),
     Test("der_grid_cfg", _cfg_der_enum, run_der_enum, kind="enum", cfgs=OTHER, max_workers=2, must_cover=_DER_COVER),
-    Test("compact_grid", compact_enum, run_compact_enum, kind="enum", cfgs=ALL4, max_workers=2,
+    Test("compact_grid", compact_enum, run_compact_enum, kind="enum", cfgs=ALL4, max_workers=1,
          must_cover=["compact_accept", "compact_reject", "rec_accept", "rec_reject", "limb~n:below", "limb~n:above"]),
-    Test("mutate", mutate_case, run_mutate, quick=6000, thorough=120000, cfgs=CF,
+    Test("mutate", mutate_case, run_mutate, quick=6000, thorough=120000, cfgs=PROD,
          must_cover=["fmt:comp", "fmt:uncomp", "fmt:hybrid", "fmt:xonly", "fmt:der", "fmt:compact", "fmt:rec", "accept:hybrid", "der_accept:in_range", "der_reject", "compact_reject"]),
     Test("mutate_cfg", mutate_case, run_mutate, quick=800, thorough=40000, cfgs=OTHER, must_cover=["fmt:comp", "fmt:uncomp", "fmt:hybrid", "fmt:xonly", "fmt:der", "fmt:compact"]),
-    Test("never_verifies", never_case, run_never, quick=500, thorough=10000, cfgs=CF,
+    # sanitizer build: few long shards (a vsan worker costs ~25 CPU-s before its first case)
+    Test("mutate_san", mutate_case, run_mutate, quick=900, thorough=30000, cfgs=SAN, max_workers=3, must_cover=["fmt:comp", "fmt:uncomp", "fmt:hybrid", "fmt:xonly", "fmt:der", "fmt:compact"]),
+    Test("never_verifies", never_case, run_never, quick=500, thorough=10000, cfgs=PROD,
          must_cover=["twin:s+n", "twin:r+n", "twin:negative", "twin:oversize", "failed:trailing", "Rx>=n"]),
+    Test("never_verifies_san", never_case, run_never, quick=120, thorough=3000, cfgs=SAN, max_workers=1, must_cover=["twin:s+n", "twin:r+n", "twin:oversize", "failed:trailing"]),
     Test("never_verifies_cfg", never_case, run_never, quick=150, thorough=4000, cfgs=OTHER, must_cover=["twin:s+n", "twin:r+n", "twin:oversize", "failed:trailing"]),
 ]
 
